@@ -27,6 +27,26 @@ CONFIGS = {
 BASE_FLAGS = ["-std=gnu11", "-UNDEBUG", "-O0", "-Xclang", "-disable-O0-optnone", "-g",
               "-fno-discard-value-names", "-Wno-everything"]
 
+# Normalisation before analysis: in these units every file-local (static) function that is defined in the unit's own
+# source file, has no loop, and is NOT listed here is inlined into its callers (opt always-inline).  The listed names are
+# the static functions of the tree the rules were written against (anchors the rules name); anything else is a helper a
+# later refactoring extracted, and the rules should see through it.  Inlining preserves semantics, so a verdict on the
+# normalised unit is a verdict on the unit.  Helpers with loops stay functions (rules summarise them or decline).
+INLINE_KEEP = {
+    "librfn/bintree.c": ["bintree_traverse_in_order_depth", "bintree_traverse_post_order_depth", "bintree_traverse_pre_order_depth",
+                         "in_order_iterator", "list_left_iterator", "list_right_iterator", "post_order_iterator",
+                         "pre_order_iterator", "visualize_node", "graph_node", "is_visited", "escape"],
+    "librfn/console.c": ["console_fibre_endpoint", "do_prompt", "do_tokenize", "find_command", "console_echo", "console_help",
+                         "console_unknown"],
+    "librfn/fibre.c": ["handle_atomic_runq", "update_current_state", "handle_timerq", "get_next_task", "get_next_wakeup",
+                       "make_runnable", "add_taint", "duetime_cmp"],
+    "librfn/hex.c": ["hexchar", "nibble"],
+    "librfn/mlog.c": ["get_line"],
+    "librfn/wavheader.c": ["format_tostring"],
+    "librfn/pack.c": [], "librfn/ringbuf.c": [], "librfn/messageq.c": [], "librfn/rotenc.c": [], "librfn/rand.c": [],
+    "librfn/list.c": [], "librfn/bitops.c": [], "librfn/regdump.c": [],
+}
+
 _workdir = None
 _lock = threading.Lock()
 
@@ -70,10 +90,69 @@ def include_flags(repo=None):
     return ["-I" + os.path.join(repo, "include"), "-I" + repo]
 
 
-def compile_unit(path, config="default", extra=(), repo=None, mem2reg=True):
-    """path: absolute source path. Returns path to the JSON facts."""
+def _mark_always_inline(ll_text, names):
+    """Give the named functions the alwaysinline attribute (and drop noinline/optnone) by cloning their attribute groups."""
+    import re
+    groups = {}
+    for m in re.finditer(r"^attributes #(\d+) = \{(.*)\}\s*$", ll_text, re.M):
+        groups[int(m.group(1))] = m.group(2)
+    nxt = max(groups) + 1 if groups else 0
+    clone = {}
+    out = []
+    for line in ll_text.split("\n"):
+        if line.startswith("define "):
+            m = re.search(r"@([\w.$]+)\(", line)
+            if m and m.group(1) in names:
+                g = re.search(r"\) ([^{]*?)#(\d+)", line)
+                if g:
+                    n = int(g.group(2))
+                    if n not in clone:
+                        clone[n] = nxt
+                        nxt += 1
+                    line = line[:g.start(2) - 1] + "#%d" % clone[n] + line[g.end(2):]
+                else:
+                    line = line.replace(" {", " alwaysinline {", 1) if " !dbg" not in line else line.replace(" !dbg", " alwaysinline !dbg", 1)
+        out.append(line)
+    text = "\n".join(out)
+    for n, k in clone.items():
+        attrs = " ".join(a for a in groups[n].split() if a not in ("noinline", "optnone"))
+        text += "\nattributes #%d = { alwaysinline %s }\n" % (k, attrs)
+    return text
+
+
+def compile_unit(path, config="default", extra=(), repo=None, mem2reg=True, inline_except=None):
+    """path: absolute source path. Returns path to the JSON facts.
+    inline_except: None = the unit as written; a collection of names = every file-local (static) function DEFINED IN
+    THIS SOURCE FILE other than those named is inlined into its callers before the analysis (a semantics-preserving
+    normalisation: rules then see the same code whether or not a developer factored a step into a helper)."""
     ensure_tool()
     wd = workdir()
+    if inline_except is not None:
+        base_js = compile_unit(path, config, extra, repo, mem2reg, None)
+        m0 = ir.Module(base_js, unit=path, config=config)
+        bn = os.path.basename(path)
+        victims = sorted(f.name for f in m0.defined_functions()
+                         if f.internal and f.name not in inline_except and f.loc and f.loc.split(":")[0].endswith(bn)
+                         and not f.loops_headers())
+        if not victims:
+            return base_js
+        tag = hashlib.sha1((path + "|" + config + "|" + " ".join(extra) + "|inl|" + ",".join(victims)).encode()).hexdigest()[:12]
+        stem = os.path.join(wd, os.path.basename(path).replace(".", "_") + "_" + config + "_" + tag)
+        js = stem + ".json"
+        if os.path.exists(js):
+            return js
+        ll = base_js[:-5] + ".ll"
+        text = _mark_always_inline(open(ll).read(), set(victims))
+        with open(stem + ".in.ll", "w") as f:
+            f.write(text)
+        r = subprocess.run(["opt-14", "-passes=always-inline,function(mem2reg)", "-S", stem + ".in.ll", "-o", stem + ".inl.ll"],
+                           capture_output=True, text=True)
+        if r.returncode != 0:
+            raise ir.AnalysisError("opt (always-inline) failed on %s: %s" % (path, r.stderr[-2000:]))
+        r = subprocess.run([IR2JSON, stem + ".inl.ll", js], capture_output=True, text=True)
+        if r.returncode != 0:
+            raise ir.AnalysisError("ir2json failed on %s: %s" % (path, r.stderr[-2000:]))
+        return js
     tag = hashlib.sha1((path + "|" + config + "|" + " ".join(extra)).encode()).hexdigest()[:12]
     stem = os.path.join(wd, os.path.basename(path).replace(".", "_") + "_" + config + "_" + tag)
     ll, ll2, js = stem + ".ll", stem + ".m2r.ll", stem + ".json"
@@ -96,12 +175,14 @@ def compile_unit(path, config="default", extra=(), repo=None, mem2reg=True):
     return js
 
 
-def load_unit(relpath, config="default", extra=(), repo=None):
+def load_unit(relpath, config="default", extra=(), repo=None, inline_except="auto"):
     repo = repo or REPO
+    if inline_except == "auto":
+        inline_except = INLINE_KEEP.get(relpath)
     path = relpath if os.path.isabs(relpath) else os.path.join(repo, relpath)
     if not os.path.exists(path):
         raise ir.AnalysisError("anchor vanished: source file %s does not exist" % relpath)
-    js = compile_unit(path, config, extra, repo)
+    js = compile_unit(path, config, extra, repo, inline_except=inline_except)
     return ir.Module(js, unit=relpath, config=config)
 
 
